@@ -37,8 +37,8 @@ import (
 // relocateShare driven through a fake remoting client.
 
 const (
-	c32System       = "c32sys"
-	c32DepartedHost = "10.9.9.9"
+	c32System        = "c32sys"
+	c32DepartedHost  = "10.9.9.9"
 	c32DepartedRPort = 9900
 	c32DepartedPPort = 7900
 )
@@ -347,7 +347,7 @@ func c32Eval(r *verifrt.Run, env *c32Env, c *c32CaseSpec) c32Obs {
 		gspec[regGrains[i].GetGrainId().GetValue()] = &c.Grains[i]
 	}
 	counts := map[string]int{
-		address.FormatHostPort(env.sys.Host(), env.sys.Port()):        c.Leader.Load,
+		address.FormatHostPort(env.sys.Host(), env.sys.Port()):    c.Leader.Load,
 		address.FormatHostPort(c32DepartedHost, c32DepartedRPort): len(c.Actors), // the dead node's own records
 	}
 	for i, p := range peers {
